@@ -6,7 +6,7 @@ import ast
 
 from ..dep import depends_on
 from ..flow import (Ref, Param, LoopVar, Elt, Phi, Acc, Sym, FuncRef, FuncFlow, strip_refs, show, pathkey, same_value,
-                    facts_at, deep_walk, normalise_fact)
+                    facts_at, deep_walk, normalise_fact, definitions_of)
 from ..model import AnalysisError, unparse, walk_no_nested
 from .common import (root_of_expr, path_from_param, dominates, const_value, gate_with, floor, call_name, is_call_to)
 from .c01 import prim_calls
@@ -104,7 +104,7 @@ def run(ctx):
         raise AnalysisError('Container._transfer: per-substance factor not found')
     ratio_val, loop = found
     ratio_val = strip_clamp(ratio_val)
-    options = [o for o in (ratio_val.options if isinstance(ratio_val, Phi) else [ratio_val]) if isinstance(o, Ref)]
+    options = [o for o in definitions_of(ratio_val) if isinstance(o, Ref)]
     # units of everything in the transfer (engine U)
     sc = targets.scan(ctx, 'Container._transfer')
     uscan.report_sinks(ctx, lambda cat: 'C02.R1' if cat in ('convert-from-unit', 'sum-mix', 'add-units', 'to-storage',
@@ -309,7 +309,7 @@ def passthrough(ctx):
                     ctx.ob('C02.R3', f_i, getattr(s, 'lineno', 0), f"{f_i.qualname}: one transfer per paired well", not looped,
                            fact='call is not inside a loop of the per-well function', nontrivial=False,
                            why='a well receives the quantity several times', key='transfer looped per well')
-    floor(ctx, 'nested transfer calls', n, 7)
+    floor(ctx, 'nested transfer calls', n, 5)
     # the vectorisers call the per-well function exactly once per element
     ap = model.func('Slicer.apply')
     vecs = [c for c in ast.walk(ap.node) if isinstance(c, ast.Call) and unparse(c.func).endswith('vectorize')]
